@@ -50,12 +50,14 @@ def history(vc, length):
                         a = bitarray([(v >> i) & 1 for i in range(n)])
                     else:
                         a = bytes(rnd.getrandbits(8) if rnd.random() < 0.85 else 0 for _ in range(n))
+                    if kind == "bytes" and rnd.random() < 0.3:
+                        a = bytearray(a)  # a caller's MUTABLE buffer: must come back unchanged as well
                     args.append(a)
                 elif kind == "pick":
                     a = bytearray.fromhex(rnd.choice(par))
                     if a and rnd.random() < 0.15:
                         a[rnd.randrange(len(a))] ^= 1 << rnd.randrange(8)
-                    args.append(bytes(a))
+                    args.append(bytes(a) if rnd.random() < 0.7 else a)
                 elif kind == "int":
                     args.append(rnd.getrandbits(par))
                 elif kind == "enum":
@@ -66,6 +68,7 @@ def history(vc, length):
             res, after = cat.perform(name, args)
             if after != [cat.canon(a) for a in cat.decode_args(before)]:
                 changed.append((step, name, before))
+            args = [bytes(a) if isinstance(a, bytearray) else a for a in args]
             for a in args:
                 if isinstance(a, (bitarray, bytes)):
                     own.setdefault(name, []).append(a)
